@@ -138,7 +138,7 @@ def explore(report, property_id, name, cfg, fmts=("delimited",), require=READ_AC
                 if not (len(vec["hist"]) == 1 and run["op"] == "read" and run["api"] == "reader" and run["mode"] == "raise"
                         and run["end"] == "close"):
                     continue
-            if fmt == "fixed":
+            if fmt.startswith("fixed"):
                 shape = _shape(vec, fmt)
                 if not all(shape.has_fixed_form(entry["run"]["ds"]) for entry in vec["hist"]):
                     continue
